@@ -5,7 +5,7 @@
 // move assignment, swap with a second container, merge, and full iteration compared with the model.  Oracle: the return value of every call, and after every
 // structural operation the complete contents (iteration, size, empty, per-key find of the whole key universe; ordered iteration and bounds for concurrent_map).
 // usage: c1012_seqmodel_rc <C10|C12> <max_success>   (env VERIF_LEG_SEED, VERIF_REPLAY_DIR)   |   c1012_seqmodel_rc replay <file>
-// case (one line):  seq kind=<chm|cum|cmap> ops=<i<k>,e<k>,f<k>,F<n>,r<n>,c,C,A,M,s,m<k>,l<k>,...>
+// case (one line):  seq kind=<chm|chmf|cum|cmap> fail=<allocation indices that throw (chmf: hash map over a failing allocator)|-> ops=<i<k>,e<k>,f<k>,F<n>,r<n>,c,C,A,M,s,m<k>,l<k>,...>
 //   i insert(k)  e erase(k)  f find/count(k)  F<n> insert n consecutive keys from the fill cursor  r<n> rehash(n)  c clear  C copy-construct and continue with the copy
 //   A copy-assign into a fresh container and continue with it  M move-assign likewise  s swap with the side container  m<k> merge a one-key container {k}  l<k> lower/upper_bound(k)
 #include <rapidcheck.h>
@@ -20,6 +20,9 @@
 #include <chrono>
 #include <fstream>
 #include <memory>
+#include <cstring>
+#include <signal.h>
+#include <unistd.h>
 
 static std::string g_err;
 static bool fail(const std::string& s) { if (g_err.empty()) g_err = s; return false; }
@@ -30,6 +33,15 @@ static std::string kv(const std::string& l, const char* k) { std::string key = s
 struct IdHashCompare { size_t hash(int k) const { return (size_t)k; } bool equal(int a, int b) const { return a == b; } };
 struct IdHash { size_t operator()(int k) const { return (size_t)k; } };
 typedef tbb::concurrent_hash_map<int, int, IdHashCompare> CHM;
+// allocator whose k-th allocation (counted over the whole case, only while armed) throws std::bad_alloc
+static long g_alloc_calls = 0; static std::set<long> g_alloc_plan; static bool g_alloc_armed = false; static long g_alloc_refused = 0;
+template <class T> struct FA {
+    typedef T value_type; FA() {} template <class U> FA(const FA<U>&) {}
+    T* allocate(size_t n) { if (g_alloc_armed && g_alloc_plan.count(++g_alloc_calls)) { g_alloc_refused++; throw std::bad_alloc(); } return (T*)::operator new(n * sizeof(T)); }
+    void deallocate(T* p, size_t) { ::operator delete((void*)p); }
+    template <class U> bool operator==(const FA<U>&) const { return true; } template <class U> bool operator!=(const FA<U>&) const { return false; }
+};
+typedef tbb::concurrent_hash_map<int, int, IdHashCompare, FA<std::pair<const int, int>>> CHMF;
 typedef tbb::concurrent_unordered_map<int, int, IdHash> CUM;
 typedef tbb::concurrent_map<int, int> CMAP;
 typedef std::map<int, int> Model;
@@ -37,6 +49,16 @@ typedef std::map<int, int> Model;
 // ------------------------------------------------------------------ adaptors: the same small vocabulary for the three containers
 struct AChm {
     typedef CHM C; static const char* name() { return "concurrent_hash_map"; }
+    static bool insert(C& c, int k, int v) { return c.insert(std::make_pair(k, v)); }
+    static long erase(C& c, int k) { return c.erase(k) ? 1 : 0; }
+    static bool find(C& c, int k, int& v) { C::const_accessor a; if (!c.find(a, k)) return false; v = a->second; return true; }
+    static long count(C& c, int k) { return (long)c.count(k); }
+    static void rehash(C& c, long n) { c.rehash((size_t)n); }
+    static bool merge1(C&, int, int) { return false; }
+    static bool has_merge() { return false; }
+};
+struct AChmF {
+    typedef CHMF C; static const char* name() { return "concurrent_hash_map (failing allocator)"; }
     static bool insert(C& c, int k, int v) { return c.insert(std::make_pair(k, v)); }
     static long erase(C& c, int k) { return c.erase(k) ? 1 : 0; }
     static bool find(C& c, int k, int& v) { C::const_accessor a; if (!c.find(a, k)) return false; v = a->second; return true; }
@@ -99,11 +121,15 @@ template <class A> static bool drive(const std::string& line) {
     g_universe.clear(); { std::set<int> u; int fc = 3000; for (auto& op : ops) { long a = op.size() > 1 ? atol(op.c_str() + 1) : 0; if (op[0] == 'i' || op[0] == 'e' || op[0] == 'f' || op[0] == 'm' || op[0] == 'l') u.insert((int)a); if (op[0] == 'F') { for (long i = 0; i < a && i < 1200; i++) u.insert(fc++); } } g_universe.assign(u.begin(), u.end()); }
     for (auto& op : ops) {
         opno++; char k = op[0]; long a = op.size() > 1 ? atol(op.c_str() + 1) : 0; std::string what = "op " + num(opno) + " (" + op + ")"; bool check = false;
-        if (k == 'i') { int v = (int)vctr++; bool r = A::insert(*c, (int)a, v); bool e = m.insert({ (int)a, v }).second; if (r != e) return fail(what + ": insert(" + num(a) + ") returned " + num(r) + ", the model " + num(e)); }
+        if (k == 'i') { int v = (int)vctr++; bool r = false, threw = false; g_alloc_armed = true; try { r = A::insert(*c, (int)a, v); } catch (std::bad_alloc&) { threw = true; } g_alloc_armed = false;
+            if (threw) { int got = -1; bool f = A::find(*c, (int)a, got); auto it = m.find((int)a); if (it != m.end()) { if (!f || got != it->second) return fail(what + ": an insert that threw bad_alloc damaged the element that was already there"); } else if (f) { if (got != v) return fail(what + ": after an insert that threw bad_alloc the key holds a value nobody gave it"); m.insert({ (int)a, v }); } check = true; }
+            else { bool e = m.insert({ (int)a, v }).second; if (r != e) return fail(what + ": insert(" + num(a) + ") returned " + num(r) + ", the model " + num(e)); } }
         else if (k == 'e') { long r = A::erase(*c, (int)a); long e = (long)m.erase((int)a); if (r != e) return fail(what + ": erase(" + num(a) + ") returned " + num(r) + ", the model " + num(e)); }
         else if (k == 'f') { int v = -1; bool r = A::find(*c, (int)a, v); auto it = m.find((int)a); if (r != (it != m.end()) || (r && v != it->second)) return fail(what + ": find(" + num(a) + ") differs from the model"); }
-        else if (k == 'F') { for (long i = 0; i < a && i < 1200; i++) { int key = fillcur++, v = (int)vctr++; bool r = A::insert(*c, key, v); bool e = m.insert({ key, v }).second; if (r != e) return fail(what + ": insert(" + num(key) + ") during a fill returned " + num(r)); } check = true; }
-        else if (k == 'r') { A::rehash(*c, a); check = true; }
+        else if (k == 'F') { for (long i = 0; i < a && i < 1200; i++) { int key = fillcur++, v = (int)vctr++; bool r = false, threw = false; g_alloc_armed = true; try { r = A::insert(*c, key, v); } catch (std::bad_alloc&) { threw = true; } g_alloc_armed = false;
+                if (threw) { int got = -1; if (A::find(*c, key, got)) { if (got != v) return fail(what + ": after an insert that threw bad_alloc the key holds a value nobody gave it"); m.insert({ key, v }); } continue; }
+                bool e = m.insert({ key, v }).second; if (r != e) return fail(what + ": insert(" + num(key) + ") during a fill returned " + num(r)); } check = true; }
+        else if (k == 'r') { g_alloc_armed = true; try { A::rehash(*c, a); } catch (std::bad_alloc&) {} g_alloc_armed = false; check = true; }
         else if (k == 'c') { c->clear(); m.clear(); check = true; }
         else if (k == 'C') { std::unique_ptr<C> d(new C(*c)); c = std::move(d); check = true; }
         else if (k == 'A') { std::unique_ptr<C> d(new C()); A::insert(*d, 7777, 1); *d = *c; c = std::move(d); check = true; }
@@ -119,8 +145,12 @@ template <class A> static bool drive(const std::string& line) {
     g_nontrivial = structural > 0 && m.size() + mside.size() > 0;
     return true;
 }
+static char g_cur[4000];
 static bool run_case(const std::string& line) {
+    snprintf(g_cur, sizeof g_cur, "%s", line.c_str());
     g_err.clear(); g_nontrivial = false; std::string kind = kv(line, "kind"); g_class = kind;
+    g_alloc_calls = 0; g_alloc_refused = 0; g_alloc_armed = false; g_alloc_plan.clear(); for (auto& f : split(kv(line, "fail"), ',')) if (f != "-") g_alloc_plan.insert(atol(f.c_str()));
+    if (kind == "chmf") return drive<AChmF>(line);
     if (kind == "chm") return drive<AChm>(line); if (kind == "cum") return drive<ACum>(line); if (kind == "cmap") return drive<ACmap>(line);
     return true;
 }
@@ -128,7 +158,12 @@ static bool run_case(const std::string& line) {
 static int pick(int lo, int hi) { return *rc::gen::resize(100, rc::gen::inRange(lo, hi + 1)); }
 static int gen_key() { static const int OFF[] = { 0, 0, 256, 512, 768, 1024, 1280, 1536, 1792, 2048, 2304, 128, 64, 4, 260, 516, 772 }; return pick(0, 7) + OFF[pick(0, 16)] + (pick(0, 5) == 0 ? 2048 : 0); }
 static std::string gen_case(const std::string& prop) {
-    std::string kind = prop == "C10" ? "chm" : (pick(0, 2) ? "cum" : "cmap");
+    // kind chmf (hash map over an allocator that throws at planned calls) is understood by the interpreter but NOT generated: allocation failures are outside the
+    // statement of C10, and with them the unchanged library shows a defect that is recorded as an observation only (DESIGN.md s.11.21: after an insert whose
+    // growth allocation failed, a copy of the table holds elements that find() cannot reach).  `drive` of this file with VERIF_SEQMODEL_FAULTS=1 generates it.
+    bool faults = getenv("VERIF_SEQMODEL_FAULTS") != nullptr;
+    std::string kind = prop == "C10" ? ((faults && pick(0, 3) == 0) ? "chmf" : "chm") : (pick(0, 2) ? "cum" : "cmap");
+    std::string fl = "-"; if (kind == "chmf") { fl = ""; int nf = pick(1, 3); std::set<int> ks; for (int i = 0; i < nf; i++) ks.insert(pick(0, 2) ? pick(1, 12) : pick(200, 1400)); for (int k2 : ks) fl += (fl.empty() ? "" : ",") + std::to_string(k2); }
     int nops = pick(1, 40); std::string ops;
     for (int i = 0; i < nops; i++) { int c = pick(0, 29); std::string o;
         if (c < 11) o = "i" + std::to_string(gen_key());
@@ -139,14 +174,23 @@ static std::string gen_case(const std::string& prop) {
         else if (c == 23) o = "c"; else if (c == 24) o = "C"; else if (c == 25) o = "A"; else if (c == 26) o = "M"; else if (c == 27) o = "s";
         else if (c == 28) o = "m" + std::to_string(gen_key()); else o = "l" + std::to_string(gen_key());
         ops += (i ? "," : "") + o; }
-    return "seq kind=" + kind + " ops=" + ops;
+    return "seq kind=" + kind + " fail=" + fl + " ops=" + ops;
 }
 static unsigned long long fnv(const std::string& s) { unsigned long long h = 1469598103934665603ull; for (unsigned char c : s) { h ^= c; h *= 1099511628211ull; } return h; }
 static std::string jesc(const std::string& s) { std::string o = "\""; for (char c : s) { if (c == '"' || c == '\\') { o += '\\'; o += c; } else if (c == '\n') o += "\\n"; else o += c; } return o + "\""; }
 
+static const char* g_rd2 = nullptr; static std::string g_prop2 = "C10"; static bool g_replaying = false;
+static void on_crash(int sig) {
+    if (g_replaying) { printf("VIOLATION CONTAINER-MODEL crash (signal %d) inside a container call\n", sig); fflush(stdout); _exit(1); }
+    char name[600]; snprintf(name, sizeof name, "%s/%s-seqmodel-%016llx.case", g_rd2 ? g_rd2 : ".", g_prop2.c_str(), fnv(g_cur));
+    FILE* f = fopen(name, "w"); if (f) { fprintf(f, "%s\n# verdict: VIOLATION CONTAINER-MODEL crash (signal %d) inside a container call\n", g_cur, sig); fclose(f); }
+    printf("{\"evaluations\":1,\"nontrivial_hashes\":[],\"classes\":{},\"sums\":{},\"samples\":[],\"inconclusive\":0,\"wall_s\":0,\"violations\":[{\"kind\":\"CONTAINER-MODEL\",\"detail\":\"crash (signal %d) inside a container call (not shrunk)\",\"replay\":\"%s\",\"case\":\"see the replay file\"}]}\n", sig, name);
+    fflush(stdout); _exit(1);
+}
 int main(int argc, char** argv) {
-    if (argc >= 3 && std::string(argv[1]) == "replay") { std::ifstream f(argv[2]); std::string l; while (std::getline(f, l)) { if (l.empty() || l[0] == '#') continue; bool ok = run_case(l); printf("%s %s\n", ok ? "OK" : "VIOLATION CONTAINER-MODEL", g_err.c_str()); return ok ? 0 : 1; } return 2; }
-    std::string prop = argc > 1 ? argv[1] : "C10"; long max_success = argc > 2 ? atol(argv[2]) : 2000; const char* sd = getenv("VERIF_LEG_SEED"); const char* rd = getenv("VERIF_REPLAY_DIR");
+    { struct sigaction sa; memset(&sa, 0, sizeof sa); sa.sa_handler = on_crash; for (int sg : { SIGSEGV, SIGBUS, SIGABRT, SIGFPE, SIGILL }) sigaction(sg, &sa, nullptr); }
+    if (argc >= 3 && std::string(argv[1]) == "replay") { g_replaying = true; std::ifstream f(argv[2]); std::string l; while (std::getline(f, l)) { if (l.empty() || l[0] == '#') continue; bool ok = run_case(l); printf("%s %s\n", ok ? "OK" : "VIOLATION CONTAINER-MODEL", g_err.c_str()); return ok ? 0 : 1; } return 2; }
+    std::string prop = argc > 1 ? argv[1] : "C10"; long max_success = argc > 2 ? atol(argv[2]) : 2000; const char* sd = getenv("VERIF_LEG_SEED"); const char* rd = getenv("VERIF_REPLAY_DIR"); g_rd2 = rd; g_prop2 = prop;
     std::string params = "seed=" + std::string(sd ? sd : "1") + " max_success=" + std::to_string(max_success) + " max_size=100"; setenv("RC_PARAMS", params.c_str(), 1);
     auto t0 = std::chrono::steady_clock::now();
     unsigned long long evals = 0; std::set<unsigned long long> nt; std::vector<std::string> samples; std::string failing; std::map<std::string, long> cls;
